@@ -71,7 +71,33 @@ func c01Classes(ctx *run.Ctx, ind *reg.Indicator) []string {
 	if ind.AnySign {
 		cl = append(cl, gen.ZeroNeg)
 	}
-	return cl
+	// Magnitudes far from the usual price range (an exact power-of-two unit
+	// change of a walk2 series): absolute tolerances and thresholds inside an
+	// implementation show up here.
+	return append(cl, "tiny", "huge")
+}
+
+// c01Bars generates the bars of a class; "tiny" / "huge" are walk2 bars in a
+// unit 2^40 times larger / smaller (volumes 2^-10 / 2^30).
+func c01Bars(r *gen.Rand, class string, n int) []gen.Bar {
+	ps, vs := 1.0, 1.0
+	switch class {
+	case "tiny":
+		class, ps, vs = gen.Walk2, 0x1p-40, 0x1p-10
+	case "huge":
+		class, ps, vs = gen.Walk2, 0x1p40, 0x1p30
+	}
+	bars := gen.Bars(r, class, n)
+	if ps != 1 {
+		for i := range bars {
+			bars[i].O *= ps
+			bars[i].H *= ps
+			bars[i].L *= ps
+			bars[i].C *= ps
+			bars[i].V *= vs
+		}
+	}
+	return bars
 }
 
 func c01(ctx *run.Ctx) {
@@ -101,7 +127,7 @@ func c01(ctx *run.Ctx) {
 							bars = gen.Bars(cc.R, gen.Walk, n)
 							numeric = gen.Numeric(cc.R, class, n)
 						} else {
-							bars = gen.Bars(cc.R, class, n)
+							bars = c01Bars(cc.R, class, n)
 						}
 						inputs := indInputs(ind, bars, numeric)
 						if class == gen.ZeroNeg {
